@@ -292,6 +292,11 @@ pub fn run_case(c: &RCase) -> CaseOut {
     let mut sess_ddl = false;
     let mut failed_then_ok = false;
     let mut had_failure = false;
+    // a successful statement may have changed u's shape (DDL): the write probe below only runs while none did
+    let mut schema_touched = false;
+    // a statement failed inside a session while the open finding about such statements is excluded: what the session
+    // leaves behind (e.g. a committed row that is in no index) is that finding's business, the write probe stays off
+    let mut polluted = false;
     let mut transcript: Vec<String> = vec![];
     let show = |s: &str| truncate(&s.replace('\n', "\\n"), 300);
     // (step, compare the state across this statement): inside a Repeat only every 16th repetition pays for it
@@ -384,6 +389,9 @@ pub fn run_case(c: &RCase) -> CaseOut {
                 if sess && (matches!(o, Out::Ddl(_)) || upper.contains("CREATE") || upper.contains("DROP") || upper.contains("ALTER")) {
                     sess_ddl = true;
                 }
+                if matches!(o, Out::Ddl(_)) || upper.contains("CREATE") || upper.contains("DROP") || upper.contains("ALTER") {
+                    schema_touched = true;
+                }
             }
             Err(crate::dbx::Err::Panic(p)) => {
                 out.failure = Some(Failure::new("panic", format!("`{}` killed a worker: {p}\n  {}", show(&sql), transcript.join("\n  "))).with_tags(tags));
@@ -391,6 +399,9 @@ pub fn run_case(c: &RCase) -> CaseOut {
             }
             Err(_) => {
                 had_failure = true;
+                if sess && c.excluded.iter().any(|x| x == "state_check.after_failed_stmt_in_session") {
+                    polluted = true;
+                }
                 if upper.contains("INDEX") && upper.contains("CREATE") && c.excluded.iter().any(|x| x == "ddl.failed_create_index") {
                     // open finding: a CREATE UNIQUE INDEX that fails leaves the table's catalog entry pointing to a
                     // non-existent index; the rest of this sequence would only rediscover it
@@ -415,6 +426,32 @@ pub fn run_case(c: &RCase) -> CaseOut {
                         // u may have been dropped by an earlier successful statement
                         if before.iter().any(|(n, r)| n == "u" && r.is_some()) {
                             out.failure = Some(Failure::new("unusable_after_error", format!("after the failed `{}` a probe SELECT fails: {}\n  {}", show(&sql), e.text(), transcript.join("\n  "))).with_tags(tags));
+                            break;
+                        }
+                    }
+                }
+                // "keeps working" includes writing: outside sessions, and while no successful DDL changed u, a row is
+                // inserted into u and deleted again (the state comparison below sees u as before)
+                if s_id.is_none() && !in_sess && !schema_touched && !polluted && before.iter().any(|(n, r)| n == "u" && r.is_some()) {
+                    let w = db.exec("INSERT INTO u VALUES (987654, 'probe')");
+                    let werr = match w {
+                        Ok(_) => match db.exec("DELETE FROM u WHERE k = 987654") {
+                            Ok(_) => None,
+                            Err(e) => Some(("DELETE FROM u WHERE k = 987654", e)),
+                        },
+                        Err(e) => {
+                            let t = e.text().to_lowercase();
+                            if t.contains("unique") || t.contains("duplicate") { None } else { Some(("INSERT INTO u VALUES (987654, 'probe')", e)) }
+                        }
+                    };
+                    match werr {
+                        None => {}
+                        Some((_, crate::dbx::Err::Panic(p))) => {
+                            out.failure = Some(Failure::new("panic", format!("write probe after the failed `{}` killed a worker: {p}\n  {}", show(&sql), transcript.join("\n  "))).with_tags(tags));
+                            break;
+                        }
+                        Some((q, e)) => {
+                            out.failure = Some(Failure::new("unusable_after_error", format!("after the failed `{}` the write probe `{q}` fails: {}\n  {}", show(&sql), e.text(), transcript.join("\n  "))).with_tags(tags));
                             break;
                         }
                     }
@@ -591,6 +628,51 @@ pub fn run_shard(ctx: &mut ShardCtx) {
     let n = ctx.share(ctx.tier.pick(16_000, 400_000));
     let strat = (prop::collection::vec(gen_step(), 6..15), any::<u8>()).prop_map(move |(steps, pool)| RCase { steps, pool: pool % 3, cache: pool / 3, excluded: excluded.clone() });
     ctx.search_with("inputs", strat, n, &run_case, Some(&simpler));
+}
+
+/// The case a libFuzzer input stands for (harness/fuzz/fuzz_targets/sql_exec.rs): byte 0 picks pool, cache and
+/// whether the statements run inside a session (and how it ends); the rest is up to six statements separated by
+/// 0xFF bytes, each handed to the engine as text (lossy UTF-8, like `Inp::Bytes`).
+pub fn case_from_fuzz_bytes(data: &[u8], excluded: &[String]) -> Option<RCase> {
+    if data.len() < 2 {
+        return None;
+    }
+    let mode = data[0];
+    let in_session = mode & 0x10 != 0;
+    let mut steps = vec![];
+    if in_session {
+        steps.push(St::Begin);
+    }
+    for part in data[1..].split(|b| *b == 0xFF).filter(|p| !p.is_empty()).take(6) {
+        let inp = Inp::Bytes(part[..part.len().min(4096)].to_vec());
+        steps.push(if in_session { St::Sess(inp) } else { St::Auto(inp) });
+    }
+    if in_session {
+        steps.push(if mode & 0x20 != 0 { St::Commit } else { St::Rollback });
+    }
+    // a plain read at the end: the session and the database keep working
+    steps.push(St::Auto(Inp::Printable("SELECT a FROM t WHERE a = 1".into())));
+    Some(RCase { steps, pool: mode & 3, cache: (mode >> 2) & 3, excluded: excluded.to_vec() })
+}
+
+/// Seed inputs for the fuzzer: the base statements of the generator, and a few multi-statement inputs.
+pub fn fuzz_seed_corpus() -> Vec<Vec<u8>> {
+    let mut v: Vec<Vec<u8>> = BASES.iter().map(|b| {
+        let mut x = vec![0u8];
+        x.extend_from_slice(b.as_bytes());
+        x
+    }).collect();
+    for (i, w) in BASES.windows(3).enumerate() {
+        let mut x = vec![(i as u8).wrapping_mul(37)];
+        for (j, b) in w.iter().enumerate() {
+            if j > 0 {
+                x.push(0xFF);
+            }
+            x.extend_from_slice(b.as_bytes());
+        }
+        v.push(x);
+    }
+    v
 }
 
 pub fn replay(kind: &str, case: &Value) -> CaseOut {
